@@ -75,6 +75,7 @@ func assert(b bool) {}
 func assume(b bool) {}
 func held(m any) bool { return true }
 func holdsNone() bool { return true }
+func heldx(m any) bool { return true }
 func inpos(c any) int { return 0 }
 func inbyte(c any, i int) byte { return 0 }
 func outlen(c any) int { return 0 }
@@ -520,6 +521,9 @@ func (w *World) buildPkg(p *Pkg) error {
 			for _, c := range fc.Loops[o] {
 				emit(c, allLoc)
 			}
+		}
+		for _, ac := range fc.AtCalls {
+			emit(ac.Clause, allLoc)
 		}
 	}
 	for _, li := range append(append([]LockInvDecl{}, p.Contracts.LockInvs...), p.Contracts.PoolInvs...) {
